@@ -51,19 +51,22 @@ def run_impl(exes, cases):
     """route every case to its harness, in batches; stop sending cases once several children hung
     (each hang costs the child timeout); returns the output line of every case"""
     res = [None] * len(cases)
-    hung = 0
+    hung = abnormal = 0
     for kind, exe in (("bulk", exes["bulk"]), ("mtbb", exes["mtbb"])):
         idx = [i for i, c in enumerate(cases) if (c.split()[0] == "bulk") == (kind == "bulk")]
-        for k in range(0, len(idx), 60):
-            part = idx[k:k + 60]
-            if hung >= 3:
+        for k in range(0, len(idx), 30):
+            part = idx[k:k + 30]
+            if hung >= 3 or abnormal >= 12:
                 for i in part:
                     res[i] = "skipped"
                 continue
             lines, rc = run_exe(exe, [cases[i] for i in part], timeout=60 + 25 * 3 + len(part))
             for j, i in enumerate(part):
                 res[i] = lines[j] if j < len(lines) else "outcome=harness-died"
+            # every abnormal outcome is slow (unbounded recursion runs until the watchdog or an
+            # assertion stops it): a handful of them is enough evidence
             hung += sum(1 for l in lines if l.startswith("outcome=timeout"))
+            abnormal += sum(1 for l in lines if l.startswith("outcome="))
     return res
 
 
@@ -199,10 +202,12 @@ def gen_pf(ctx, nrand, nmax):
         last = first + span
         if r.chance(1, 8):      # reversed
             first, last = last + r.rng(0, 3), first
-        if r.chance(1, 12):     # far apart / out of the guard
-            first, last = r.choice([lo, -2, 0]), r.choice([hi, hi - 1])
-            if form != "fl" and r.chance(1, 2):
-                step = hi // r.rng(1, 3)
+        if r.chance(1, 12):     # far apart: last - first is not representable (outside the guard)
+            first, last = r.choice([lo, -2]), r.choice([hi, hi - 1])
+        elif form in ("fls", "flsg") and r.chance(1, 10):   # huge steps, a few iterations
+            step = hi // r.rng(4, 9)
+            first = lo + r.rng(0, 5)
+            last = first + r.rng(0, 3) * step + r.rng(0, 2)
         first, last = max(lo, min(hi, first)), max(lo, min(hi, last))
         grain = r.choice([1, 1, 2, 3, 8, r.rng(1, 64), 1 << 20]) if form in ("flsg", "rng") else 0
         cases.append(pf_case(r, form, ty, first, last, step, grain))
@@ -234,6 +239,14 @@ def pf_guard(case):
         return g
     n = tquot(last - first + step - 1, step)
     return ok(grain) and grain >= 1 and ok(n * step) and ok(first + n * step)
+
+
+def pf_small(case):
+    """the implementation is only run on ranges of at most 5000 iterations (the harness treats
+    more than 20000 thread creations in one case as runaway recursion)"""
+    w = case.split()
+    first, last, step = int(w[4]), int(w[5]), int(w[6])
+    return (last - first) // max(1, step if w[2] in ("fls", "flsg") else 1) <= 5000
 
 
 # ----------------------------------------------------------------------------------------------
@@ -366,7 +379,7 @@ def oracle_pf(case, out):
     got = []
     for x in lst(out[7:]):
         lo, hi = map(int, x.split(":"))
-        if hi - lo > 10 ** 7:
+        if (hi - lo) // step > 10 ** 6:
             return "leaf range %s is absurd" % x
         got += list(range(lo, hi, step))
     got.sort()
@@ -408,17 +421,21 @@ def corpus_cases(inf):
 
 def evaluate(exes, cases, inf):
     """returns (impl lines, model lines, diffs, oracle failures, model-guard mismatches)"""
-    in_guard = [c.split()[0] != "pf" or pf_guard(c) for c in cases]
+    in_guard = [c.split()[0] != "pf" or (pf_guard(c) and pf_small(c)) for c in cases]
     run_idx = [i for i, g in enumerate(in_guard) if g]
     impl_part = run_impl(exes, [cases[i] for i in run_idx])
     impl = ["not-run (outside the representability guard)"] * len(cases)
     for j, i in enumerate(run_idx):
         impl[i] = impl_part[j]
-    model = run_model(exes, cases)
+    midx = [i for i, c in enumerate(cases) if in_guard[i] or not pf_guard(c)]
+    mpart = run_model(exes, [cases[i] for i in midx])
+    model = ["not-run (too large)"] * len(cases)
+    for j, i in enumerate(midx):
+        model[i] = mpart[j]
     diffs, fails, guard_bad = [], [], []
     for i, c in enumerate(cases):
         if not in_guard[i]:
-            if model[i] != "overflow":
+            if model[i] != "overflow" and not pf_guard(c):
                 guard_bad.append((c, model[i]))
             continue
         if model[i] == "overflow":
